@@ -10,7 +10,6 @@ EXPLANATION = ('Effect analysis over the value-flow evaluation of every sampler\
                'R7.3 per-chain seed derivation is total on u64 (no overflow-checked +,-,* on seeds); R7.4 no statics on run paths, generators owned '
                'by value; R7.5 seeded initialisers are pure (seed -> local generator -> draws) and init_det = init_with_seed(.,.,42). '
                'Different-seeds-differ is a statement about the generator, not decided.')
-FLOORS = {'obligations': 83}   # counted on the reference tree; fewer instantiated obligations is reported, never passed silently
 TECHNIQUE = 'effect / generator-provenance analysis over the inlined call graph (value-flow events), liveness of draws, THIR arithmetic scan'
 ASSUMPTIONS = ['Gibbs: randomness inside a user Conditional is excluded (no seeding handle), as the property states',
                'rayon indexed collect / thread::scope join preserve chain order (trusted library contract)']
